@@ -250,15 +250,15 @@ PROPS = {
         "components": (
             [{"harness": f"h_exact_{d}", "source": "h_exact", "defines": [f"-DVDOM={d}"], "quick": 500, "thorough": 20000,
               "shards": 1, "corpus": f"h_exact_{d}",
-              "nontrivial": lambda l: "(assume" in l and ("(join" in l or "(meet" in l or "(forget" in l)}
+              "nontrivial": lambda l: "(assume" in l and ("(join" in l or "(meet" in l or "(forget" in l or "(assign" in l or "(project" in l)}
              for d in [1, 26, 7, 22, 25, 6, 27, 8]] +
             [{"harness": f"h_exact_{d}", "source": "h_exact", "defines": [f"-DVDOM={d}"], "quick": 150, "thorough": 5000,
               "shards": 1, "corpus": f"h_exact_{d}",
-              "nontrivial": lambda l: "(assume" in l and ("(join" in l or "(meet" in l or "(forget" in l)}
+              "nontrivial": lambda l: "(assume" in l and ("(join" in l or "(meet" in l or "(forget" in l or "(assign" in l or "(project" in l)}
              for d in [14, 15, 18, 19, 28, 29]]),
-        "rule": "random conjunctions of in-language constraints (unit coefficients, constants small and large; satisfiable, unsatisfiable, integer-only contradictions) over 1-7 variables, added in random order and interleaved with copies, joins, meets, forgets over a pool of 3 values, under randomised closure parameters; after every step is_bottom, operator[](v) and entails(c) for a battery of in-language constraints are compared with the proved-exact Lean model (zones / octagons / interval environments); wrappers (flat boolean, array smashing/adaptive, product) are compared with their base",
+        "rule": "random conjunctions of in-language constraints (unit coefficients, constants small and large; satisfiable, unsatisfiable, integer-only contradictions) over 1-7 variables, added in random order and interleaved with copies, joins, meets, forgets (single and vector), projections and in-language assignments (x := k, x := y + k, x := -y + k) over a pool of 3 values, under randomised closure parameters; after every step is_bottom, operator[](v) and entails(c) for a battery of in-language constraints are compared with the proved-exact Lean model (zones / octagons / interval environments); wrappers (flat boolean, array smashing/adaptive, product) are compared with their base",
         "assumptions": ["int64 DBM weights: constants below ~3.6*10^7 (documented unchecked arithmetic)", "precision claims use operator[] (normalising); at() is only checked for soundness"],
-        "trusted_base": COMMON_TB + ["models: CrabModel/Dom/{Dbm,Zones,Octagon,ItvEnv}.lean"],
+        "trusted_base": COMMON_TB + ["models: CrabModel/Dom/{Dbm,Zones,Octagon,ItvEnv,ZonesOps,OctagonOps,ItvEnvOps}.lean"],
     },
     "C17": {
         "level": "proof",
